@@ -220,6 +220,8 @@ package fsm
 // the per-transaction events are cleared and the slash tracker is the pre-transaction clone.
 //@ func (*StateMachine).ApplyTransactions
 //@   callsite Flush requires[onlysuccess] isnil(e)
+//@   callsite ApplyTransaction requires[notfailed] !indom(failedCheckTxs, i)
+//@   callsite ApplyTransaction requires[firstseen] !found && indom(deDuplicator.m, hashString) && callee.txHash == hashString
 //@   loop 4 iterensures[store] !isnil(currentStore) ==> s.store == currentStore
 //@   loop 4 iterensures[restored] !isnil(currentStore) && !isnil(e) ==> s.slashTracker == preTxSlashTracker && s.cache.valParams == nil && s.cache.feeParams == nil && (forall k uint64 :: !indom(s.cache.accounts, k)) && (forall k uint64 :: !indom(s.cache.pools, k)) && (s.events != nil ==> s.events.Events == nil)
 
